@@ -1,64 +1,127 @@
-(* C05_GenLink: the functions generated from the CURRENT EventLoopThreadPool.cc (Gen_C05) are the
-   model's functions, for all arguments; hence every theorem of C05_PoolProofs holds of them. *)
-From Coq Require Import List Bool Arith Lia.
+(* C05_GenLink: the functions generated from the CURRENT EventLoopThreadPool.cc (Gen_C05, C integer
+   semantics: int wrap-around, conversion to size_t) are the model's functions on every state the
+   pool can be in (cursor below the pool size, pool size below 2^31, hash codes below 2^64); hence
+   every theorem of C05_PoolProofs holds of them. *)
+From Coq Require Import List Bool Arith ZArith Lia.
 Import ListNotations.
 From Muduo Require Import C05_Model C05_PoolProofs Gen_C05 C05_GenRun.
 
-Ltac btests :=
+Definition zo (x : option nat) : option Z := option_map Z.of_nat x.
+Definition zres (r : list (option nat) * nat) : list (option Z) * Z := (map zo (fst r), Z.of_nat (snd r)).
+Definition int_max : Z := 2147483647.
+Definition size_max : Z := 18446744073709551615.
+Definition hashes_ok (ops : list pop) : Prop :=
+  Forall (fun o => match o with PHash h => (Z.of_nat h <= size_max)%Z | PNext => True end) ops.
+
+Ltac ztests :=
   repeat match goal with
+         | |- context [Z.leb ?a ?b] => destruct (Z.leb_spec a b)
+         | |- context [Z.ltb ?a ?b] => destruct (Z.ltb_spec a b)
+         | |- context [Z.eqb ?a ?b] => destruct (Z.eqb_spec a b)
          | |- context [Nat.leb ?a ?b] => destruct (Nat.leb_spec a b)
          | |- context [Nat.ltb ?a ?b] => destruct (Nat.ltb_spec a b)
          | |- context [Nat.eqb ?a ?b] => destruct (Nat.eqb_spec a b)
          end;
-  cbn [negb andb orb]; try reflexivity; try (exfalso; lia); try (repeat f_equal; lia).
+  cbn [negb andb orb fst snd option_map]; try reflexivity.
 
-Lemma gen_next_is_model : forall n next, gen_get_next n next = get_next pinned_pshape n next.
-Proof. intros n next. unfold gen_get_next, get_next, pinned_pshape. cbn [p_nonempty p_wrap p_hash]. btests. Qed.
+Ltac Zify.zify_post_hook ::= Z.div_mod_to_equations.
 
-Lemma gen_hash_is_model : forall n next h, gen_get_hash n next h = (get_hash pinned_pshape n h, next).
-Proof. intros n next h. unfold gen_get_hash, get_hash, pinned_pshape. cbn [p_nonempty p_wrap p_hash]. btests. Qed.
-
-Lemma gen_pool_run_is_model : forall n ops next, gen_pool_run n next ops = pool_run pinned_pshape n next ops.
+Lemma gen_next_is_model : forall n next : nat,
+  (Z.of_nat n <= int_max)%Z -> (n = 0 \/ next < n) ->
+  gen_get_next (Z.of_nat n) (Z.of_nat next) =
+    (zo (fst (get_next pinned_pshape n next)), Z.of_nat (snd (get_next pinned_pshape n next))).
 Proof.
-  intros n. induction ops as [|o r IH]; intros next; [reflexivity|].
-  destruct o as [|h]; cbn [gen_pool_run pool_run].
-  - rewrite gen_next_is_model. destruct (get_next pinned_pshape n next) as [x nx]. rewrite IH. reflexivity.
-  - rewrite gen_hash_is_model. rewrite IH. reflexivity.
+  intros n next B H. unfold int_max in B.
+  unfold gen_get_next, get_next, pinned_pshape, zo, wrap32, to_size. cbn [p_nonempty p_wrap p_hash].
+  ztests; try (exfalso; lia); try (repeat f_equal; lia).
+Qed.
+
+Lemma gen_hash_is_model : forall (n h : nat) (next : Z),
+  (Z.of_nat h <= size_max)%Z ->
+  gen_get_hash (Z.of_nat n) next (Z.of_nat h) = (zo (get_hash pinned_pshape n h), next).
+Proof.
+  intros n h next B. unfold size_max in B.
+  unfold gen_get_hash, get_hash, pinned_pshape, zo, wrap32, to_size. cbn [p_nonempty p_wrap p_hash].
+  ztests; try (exfalso; lia); try (repeat f_equal; try lia).
+  all: try (rewrite Nat2Z.inj_mod; reflexivity).
 Qed.
 
 Lemma gen_eshape_is_model : gen_eshape = pinned_eshape.
 Proof. reflexivity. Qed.
 
+Lemma get_next_bound : forall n next, (n = 0 \/ next < n) ->
+  (n = 0 \/ snd (get_next pinned_pshape n next) < n).
+Proof.
+  intros n next [->|H]; [left; reflexivity|right]. unfold get_next, pinned_pshape. cbn [p_nonempty p_wrap].
+  destruct (Nat.eqb_spec n 0); [lia|]. cbn [negb snd]. destruct (Nat.leb_spec n (S next)); lia.
+Qed.
+
+(* any sequence of calls executed with the generated functions *)
+Lemma gen_pool_run_is_model : forall n ops next,
+  (Z.of_nat n <= int_max)%Z -> (n = 0 \/ next < n) -> hashes_ok ops ->
+  gen_pool_run (Z.of_nat n) (Z.of_nat next) ops = zres (pool_run pinned_pshape n next ops).
+Proof.
+  intros n ops. induction ops as [|o r IH]; intros next B H HO; [reflexivity|].
+  inversion HO as [|? ? HO1 HO2]; subst.
+  destruct o as [|h]; cbn [gen_pool_run pool_run].
+  - rewrite gen_next_is_model by assumption.
+    pose proof (get_next_bound n next H) as H'.
+    destruct (get_next pinned_pshape n next) as [x nx]. cbn [fst snd] in *. rewrite IH by assumption.
+    destruct (pool_run pinned_pshape n nx r). reflexivity.
+  - rewrite gen_hash_is_model by assumption. rewrite IH by assumption.
+    destruct (pool_run pinned_pshape n next r). reflexivity.
+Qed.
+
 (* ---------------------------------------------------------------- the pool theorems, of the generated functions *)
-Theorem gen_pool_any_sequence : forall N ops c, 0 < N ->
-  gen_pool_run N (c mod N) ops = (pool_spec N c ops, (c + count_next ops) mod N).
-Proof. intros N ops c H. rewrite gen_pool_run_is_model. apply pool_run_spec; [apply pinned_pshape_ok|exact H]. Qed.
+(* N < 2^31 threads (the cursor is an int), hash codes are size_t values *)
+Theorem gen_pool_any_sequence : forall N ops c, 0 < N -> (Z.of_nat N <= int_max)%Z -> hashes_ok ops ->
+  gen_pool_run (Z.of_nat N) (Z.of_nat (c mod N)) ops = zres (pool_spec N c ops, (c + count_next ops) mod N).
+Proof.
+  intros N ops c H B HO.
+  rewrite gen_pool_run_is_model by (first [assumption | right; apply Nat.mod_upper_bound; lia]).
+  rewrite pool_run_spec; [reflexivity|apply pinned_pshape_ok|exact H].
+Qed.
 
-Theorem gen_round_robin : forall N k i, 0 < N -> i < k ->
-  nth i (fst (gen_pool_run N 0 (repeat PNext k))) None = Some (i mod N).
-Proof. intros N k i H1 H2. rewrite gen_pool_run_is_model. apply round_robin; [apply pinned_pshape_ok|exact H1|exact H2]. Qed.
+Lemma hashes_ok_repeat : forall k, hashes_ok (repeat PNext k).
+Proof. induction k; cbn; constructor; auto. Qed.
 
-Theorem gen_round_robin_distinct : forall N c, 0 < N ->
-  fst (gen_pool_run N (c mod N) (repeat PNext N)) = map (fun i => Some ((c + i) mod N)) (seq 0 N) /\
+Theorem gen_round_robin : forall N k i, 0 < N -> (Z.of_nat N <= int_max)%Z -> i < k ->
+  nth i (fst (gen_pool_run (Z.of_nat N) 0 (repeat PNext k))) None = Some (Z.of_nat (i mod N)).
+Proof.
+  intros N k i H1 B H2. change 0%Z with (Z.of_nat 0).
+  rewrite gen_pool_run_is_model by (first [assumption | right; exact H1 | apply hashes_ok_repeat]).
+  unfold zres. cbn [fst]. change (@None Z) with (zo None). rewrite map_nth.
+  rewrite round_robin; [reflexivity|apply pinned_pshape_ok|exact H1|exact H2].
+Qed.
+
+Theorem gen_round_robin_distinct : forall N c, 0 < N -> (Z.of_nat N <= int_max)%Z ->
+  fst (gen_pool_run (Z.of_nat N) (Z.of_nat (c mod N)) (repeat PNext N)) =
+    map (fun i => Some (Z.of_nat ((c + i) mod N))) (seq 0 N) /\
   NoDup (map (fun i => (c + i) mod N) (seq 0 N)) /\ (forall i, (c + i) mod N < N).
 Proof.
-  intros N c H. split; [|apply consecutive_distinct; exact H].
-  rewrite gen_pool_any_sequence by exact H. cbn [fst].
+  intros N c H B. split; [|apply consecutive_distinct; exact H].
+  rewrite gen_pool_any_sequence by (auto using hashes_ok_repeat). unfold zres. cbn [fst].
   assert (G : forall k c, pool_spec N c (repeat PNext k) = map (fun i => Some ((c + i) mod N)) (seq 0 k)).
   { induction k as [|k IH]; intros c0; [reflexivity|]. cbn [repeat pool_spec seq map]. rewrite Nat.add_0_r. f_equal.
     rewrite IH, <- seq_shift, map_map. apply map_ext. intros a. do 2 f_equal. lia. }
-  apply G.
+  rewrite G, map_map. reflexivity.
 Qed.
 
-Theorem gen_hash_stable : forall N, 0 < N -> forall ops1 ops2 c1 c2 i1 i2 h,
+Theorem gen_hash_stable : forall N, 0 < N -> (Z.of_nat N <= int_max)%Z -> forall ops1 ops2 c1 c2 i1 i2 h,
+  hashes_ok ops1 -> hashes_ok ops2 ->
   nth_error ops1 i1 = Some (PHash h) -> nth_error ops2 i2 = Some (PHash h) ->
-  nth_error (fst (gen_pool_run N (c1 mod N) ops1)) i1 = Some (Some (h mod N)) /\
-  nth_error (fst (gen_pool_run N (c2 mod N) ops2)) i2 = Some (Some (h mod N)).
+  nth_error (fst (gen_pool_run (Z.of_nat N) (Z.of_nat (c1 mod N)) ops1)) i1 = Some (Some (Z.of_nat (h mod N))) /\
+  nth_error (fst (gen_pool_run (Z.of_nat N) (Z.of_nat (c2 mod N)) ops2)) i2 = Some (Some (Z.of_nat (h mod N))).
 Proof.
-  intros N H ops1 ops2 c1 c2 i1 i2 h H1 H2. rewrite !gen_pool_run_is_model.
-  apply hash_stable; auto. apply pinned_pshape_ok.
+  intros N H B ops1 ops2 c1 c2 i1 i2 h O1 O2 H1 H2.
+  rewrite !gen_pool_any_sequence by assumption. unfold zres. cbn [fst].
+  split; rewrite nth_error_map; erewrite pool_spec_hash by eassumption; reflexivity.
 Qed.
 
-Theorem gen_empty_pool_base : forall ops next,
-  gen_pool_run 0 next ops = (map (fun _ => None) ops, next).
-Proof. intros ops next. rewrite gen_pool_run_is_model. apply pool_run_empty. apply pinned_pshape_ok. Qed.
+Theorem gen_empty_pool_base : forall ops next, hashes_ok ops ->
+  gen_pool_run 0 (Z.of_nat next) ops = (map (fun _ => None) ops, Z.of_nat next).
+Proof.
+  intros ops next HO. change 0%Z with (Z.of_nat 0).
+  rewrite gen_pool_run_is_model by (first [assumption | unfold int_max; lia | left; reflexivity]).
+  rewrite pool_run_empty by apply pinned_pshape_ok. unfold zres. cbn [fst snd]. rewrite map_map. reflexivity.
+Qed.
